@@ -287,7 +287,6 @@ OLD = {1: {"c1": 11, "c2": 12, "c3": 13, "c4": 14}, 2: {"c1": 21, "c2": 22, "c3"
 
 def execute_case(world, case):
     """returns list of (kind, detail)"""
-    kinds = world.kinds
     route = case["route"]
     pk = case.get("pk", "given")
     t = world.tables[pk]
